@@ -232,11 +232,11 @@ func main() {
 		}
 		P.ExplicitYield = cfg.YieldMode == "explicit" || hc.YieldMode == "explicit"
 		P.MaxPreempt = basePreempt
-		if hc.MaxPreempt > 0 {
-			P.MaxPreempt = hc.MaxPreempt
-		}
 		if v, ok := cfg.MaxPreemptTier[*tier]; ok {
 			P.MaxPreempt = v
+		}
+		if hc.MaxPreempt > 0 { // a harness-level bound wins over the check-level ones
+			P.MaxPreempt = hc.MaxPreempt
 		}
 		if v, ok := hc.MaxPreemptTier[*tier]; ok {
 			P.MaxPreempt = v
